@@ -188,6 +188,10 @@ func (db *DB) sendToWriteCh(entries []*kv.Entry, waitOnThrottle bool) (*request,
 
 	if err := db.enqueueCommitRequest(cr); err != nil {
 		req.wg.Done()
+		// On error the caller keeps ownership of the entries, as on the early
+		// returns above; releasing them here made setEntry's own DecrRef
+		// underflow (Set after Close panicked instead of returning the error).
+		req.Entries = nil
 		req.DecrRef()
 		commitReqPool.Put(cr)
 		return nil, err
